@@ -2,6 +2,7 @@ import Pk.FitLaws
 import Pk.Flow
 import Pk.Slice
 import Pk.Inst
+import Pk.InvFlow
 /-! # C03 — Episodes are never mixed and samples keep their temporal order
 
 Two semantic levels: `Stage.mt` routes the rows of a multi-episode matrix exactly as the code does
@@ -18,6 +19,12 @@ alone, rows in their original time order — for any number, labelling, order an
 theorem C03_transform_refines (s : S) (X : M α) (hG : Guard (Stage.nSamplesIn s 1) X) (l : Nat) :
     episodeOf l (Stage.mt (rowFn ops ok) s X) = Stage.tr (rowFn ops ok) s (episodeOf l X) :=
   Stage.mt_refines (rowFn ops ok) s X (by rw [Stage.nSamplesIn_eq] at hG; rwa [Nat.add_comm]) l
+
+/-- the same for `inverse_transform`, with no guard at all: inverse-transforming a multi-episode matrix gives, for
+each label, exactly the inverse transform of that episode alone -/
+theorem C03_inverse_refines (s : S) (w : Nat × Nat) (Y : M α) (l : Nat) :
+    episodeOf l (Stage.mi (rowFn ops ok) s w Y) = Stage.inv (rowFn ops ok) s w (episodeOf l Y) :=
+  Stage.mi_refines (rowFn ops ok) s w Y l
 
 /-- the arrangement of the episodes in the matrix is irrelevant -/
 theorem C03_layout_irrelevant (s : S) (X Y : M α) (hGX : Guard (Stage.nSamplesIn s 1) X)
